@@ -78,6 +78,8 @@ def gen(rng, strategy, signal_case=False, shared=False):
     # the signal: a boolean pattern over steps (True = encouraged)
     pat = [True] * n
     kind = rng.choice(["block", "block", "alternating", "late", "early", "none"]) if not directed else "late"
+    if shared and rng.random() < 0.7:
+        kind = "late"        # the encouraged part lies late: not all vehicles can wait for it
     if kind == "block":
         a = rng.randrange(0, n)
         b_ = min(n, a + rng.randrange(1, max(2, n // 2)))
